@@ -18,7 +18,14 @@ RULE = ("regular axes with step D in {1,2,7,60,900,3600}; n=0..30; series of pla
         "{k,k+1}, or series length in {k,k+1}, or a duration not a multiple of D, or a window containing a missing value")
 ASSUMPTIONS = ["sampling is regular (the statement's premise)", "dyadic values: window ranges and tolerances compare exactly"]
 Q = 0.125
-STEPS = [1, 2, 7, 60, 900, 3600, 3600, 86400, 90000, 129600, 604800]  # up to daily / 25 h / 36 h / weekly sampling
+# from 8 Hz to weekly sampling (fractional steps are dyadic, so that thresholds / step is exact)
+STEPS = [1, 2, 7, 60, 900, 3600, 3600, 86400, 90000, 129600, 604800, 0.5, 1.5, 0.125, 2.5]
+
+
+def kof(thr, D):
+    from fractions import Fraction
+    import math
+    return math.floor(Fraction(thr) / Fraction(D))
 
 
 def _fl():
@@ -75,13 +82,13 @@ def flat_case(draw, tier="quick"):
     D = draw(st.sampled_from(STEPS))
     x = draw(flat_series(n))
     x = draw(gen.overlay_missing(x))
-    durs = [0, D - 1, D, D + 1, 2 * D, 2 * D + 1, 3 * D, 3 * D - 1, (n + 1) * D, n * D, max(n - 1, 0) * D]
+    durs = [0, max(D - 1, 0), D, D + 1, 2 * D, 2 * D + 1, 3 * D, max(3 * D - 1, 0), (n + 1) * D, n * D, max(n - 1, 0) * D]
     dur = st.one_of(st.sampled_from(durs), st.integers(0, (n + 2)).map(lambda m: m * D),
-                    st.integers(0, (n + 2) * D))
+                    st.integers(0, int((n + 2) * D) + 1), st.integers(0, 8 * (n + 2)).map(lambda m: m * D / 8))
     s, f = draw(dur), draw(dur)
     if draw(st.integers(0, 9)) == 0:
         s = s + 0.5
-    rs = sorted(window_ranges(x, int(s) // D) | window_ranges(x, int(f) // D))
+    rs = sorted(window_ranges(x, kof(s, D)) | window_ranges(x, kof(f, D)))
     tol_choices = [st.sampled_from([0, Q, 2 * Q, 1.0, 16.0])]
     if rs:
         r = draw(st.sampled_from(rs))
@@ -95,6 +102,10 @@ def flat_case(draw, tier="quick"):
 def case_times(case):
     import numpy as np
     t = [case["t0"] + i * case["D"] for i in range(len(case["x"]))]
+    if any(float(v) != int(v) for v in t):
+        # sub-second sampling: instants in milliseconds / float epoch seconds
+        from .. import carriers
+        return np.array(t, dtype="float64") if case["tc"] in ("epoch", "epoch32") else carriers.time(t, "dt64ns")
     if case["tc"] == "epoch32":
         return epoch32(t)
     return np.array(t, dtype="int64") if case["tc"] == "epoch" else tarr(t)
@@ -103,12 +114,12 @@ def case_times(case):
 def check_flat(case, rec):
     x, D, s, f, tol = case["x"], case["D"], case["suspect"], case["fail"], case["tol"]
     n = len(x)
-    ks = {int(s) // D, int(f) // D}
+    ks = {kof(s, D), kof(f, D)}
     pl = plateau_lengths(x)
     labels = []
     a = any(p in (k, k + 1) for p in pl for k in ks if k > 0)
     b = any(n in (k, k + 1) for k in ks)
-    c = (int(s) % D != 0) or (int(f) % D != 0)
+    c = (kof(s, D) * D != s) or (kof(f, D) * D != f)
     d = any(model.miss(v) for v in x) and n >= 3
     for lab, on in (("plateau_len_k_or_k+1", a), ("series_len_k_or_k+1", b), ("duration_not_multiple", c),
                     ("has_missing", d), ("fail_lt_suspect", f < s), ("n_lt_3", n < 3)):
